@@ -201,6 +201,7 @@ CONTRACTS = {
                 "else (m.g_en_cnt == old(m.g_en_cnt) and m.g_it_cnt == old(m.g_it_cnt) and m.g_dis_cnt == old(m.g_dis_cnt) and m.g_state == old(m.g_state))))",
             "C14.R3 when run() returns the chosen mode is idle again (on_disable was delivered, also after faults tolerated on the FMS) and no other mode changed state":
                 f"forall(m, Ref_{AM}, (m.g_state == 0) if (m is self.g_chosen and m is not None) else (m.g_state == old(m.g_state)))",
+            "C14.R4 (no callback raised in this period) when run() returns there is no active mode any more (a later disable() or periodic() delivers nothing)": "implies(g_faults == old(g_faults), self.active_mode is None)",
             "C14.R2 the mode that ran is the dashboard string's mode if it names one, else the chooser selection": "self.g_chosen is (self.modes[unwrap(g_dash)] if (g_dash is not None and has(self.modes, unwrap(g_dash))) else g_choice)",
             "C05.A1 every iter_fn ran exactly once per loop iteration (= per NotifierDelay.wait())": "forall(j, Int, implies(0 <= j and j < len(iter_fn), iter_fn[j].g_cnt == old(iter_fn[j].g_cnt) + self.g_iters))",
             "C05.A3 the NotifierDelay is released at the end": "True",
